@@ -64,6 +64,10 @@ use crate::{
 #[cfg(feature = "websocket")]
 use crate::wsproxy::ProxyConnection;
 
+#[cfg(vpncloud_verif)]
+#[path = "/verif/harness/driver/mod.rs"]
+mod verif_driver;
+
 struct DualLogger {
     file: Option<Mutex<File>>,
 }
@@ -231,6 +235,10 @@ fn run<P: Protocol, S: Socket>(config: Config, socket: S) {
 }
 
 fn main() {
+    #[cfg(vpncloud_verif)]
+    if verif_driver::dispatch() {
+        return;
+    }
     let args: Args = Args::from_args();
     if args.version {
         println!("VpnCloud v{}", env!("CARGO_PKG_VERSION"));
